@@ -211,7 +211,7 @@ func init() {
 				}
 			}
 			for _, f := range Formats {
-				for _, tg := range []string{"file", "dir", "empty", "foreign-ext", "nested-missing-dir", "file-noext", "file-dotted-dir", "dir-symlink", "dir-trailing-slash", "file-symlink", "file-dollar", "dir-dollar", "dir-dotted", "file-inner-ext"} {
+				for _, tg := range []string{"file", "dir", "empty", "foreign-ext", "nested-missing-dir", "file-noext", "file-dotted-dir", "dir-symlink", "dir-trailing-slash", "file-symlink", "file-dollar", "dir-dollar", "dir-dotted", "file-inner-ext", "file-through-link-dotdot"} {
 					for _, wp := range []bool{true, false} {
 						for _, pre := range []string{"", "rc1"} {
 							c := baseMeta()
@@ -397,6 +397,13 @@ func checkC15(env *engine.Env, ci any) engine.Outcome {
 		clA := "- semver: \"1.0.0\"\n  date: \"2009-11-10T23:00:00Z\"\n  packager: \"Jane Roe <jane@example.com>\"\n  changes:\n    - note: \"the changelog of the working directory\"\n"
 		clB := strings.ReplaceAll(clA, "the changelog of the working directory", "A DECOY next to the configuration file")
 		put("files/app.conf", []byte("setting = working-directory\n"), 0o644)
+		// names that are also patterns matching their neighbours (contents are expanded once)
+		put("files/a[1].txt", []byte("the file named a[1].txt\n"), 0o644)
+		put("files/a1.txt", []byte("the file named a1.txt\n"), 0o644)
+		put("files/st*r.txt", []byte("the file named st*r.txt\n"), 0o644)
+		put("files/star.txt", []byte("the file named star.txt\n"), 0o644)
+		put("files/q?.txt", []byte("the file named q?.txt\n"), 0o644)
+		put("files/qx.txt", []byte("the file named qx.txt\n"), 0o644)
 		put("packaging/files/app.conf", []byte("setting = DECOY next to the configuration file\n"), 0o644)
 		put("scripts/post.sh", []byte("#!/bin/sh\necho working directory\n"), 0o755)
 		put("packaging/scripts/post.sh", []byte("#!/bin/sh\necho DECOY next to the configuration file\n"), 0o755)
@@ -541,6 +548,16 @@ func checkC15(env *engine.Env, ci any) engine.Outcome {
 		target = filepath.Join(work, "dist-1.2")
 		wantPath, wantFormat = filepath.Join(target, conv), f
 		wantFail = !c.WithP
+	case "file-through-link-dotdot":
+		// link -> outdir/sub; the target link/../name is outdir/name for the operating system (./name after lexical cleaning)
+		os.Mkdir(filepath.Join(work, "outdir", "sub"), 0o755)
+		os.Symlink(filepath.Join("outdir", "sub"), filepath.Join(work, "link"))
+		ext := extOf[f]
+		if !c.WithP && f == "archlinux" {
+			ext = ".archlinux"
+		}
+		target = filepath.Join(work, "link") + "/../custom" + ext
+		wantPath, wantFormat = filepath.Join(work, "outdir", "custom"+ext), f
 	case "file-inner-ext":
 		// another format's extension inside the name, this format's at the end
 		target = filepath.Join(work, "outdir", "myapp."+other+"-debug-1.2.3"+extOf[f])
